@@ -3,62 +3,20 @@
 package main
 
 import (
-	"crypto"
+	"crypto/rand"
+	"crypto/rsa"
+	"crypto/x509"
+	"encoding/base64"
 	"fmt"
-	"time"
-
-	"github.com/miekg/dns"
-	"github.com/semihalev/sdns/internal/verif/l3"
-	"github.com/semihalev/sdns/internal/verif/vlib"
+	"os"
 )
 
-func signSet(k *l3.KeyPair, zone string, set []dns.RR, inc, exp time.Time) *dns.RRSIG {
-	h := set[0].Header()
-	sig := &dns.RRSIG{Hdr: dns.RR_Header{Name: h.Name, Rrtype: dns.TypeRRSIG, Class: h.Class, Ttl: h.Ttl},
-		TypeCovered: h.Rrtype, Algorithm: k.Key.Algorithm, Labels: uint8(dns.CountLabel(h.Name)), OrigTtl: h.Ttl,
-		Expiration: uint32(exp.Unix()), Inception: uint32(inc.Unix()), KeyTag: k.Key.KeyTag(), SignerName: zone}
-	if err := sig.Sign(k.Priv.(crypto.Signer), set); err != nil {
-		panic(err)
-	}
-	return sig
-}
-
 func main() {
-	vlib.Quiet()
-	w := l3.NewWorld(true)
-	defer w.Close()
-	w.AddZone("test.", l3.ZoneOpts{Signed: true, PublishDS: true})
-	z := w.AddZone("shop.test.", l3.ZoneOpts{Signed: true, PublishDS: true})
-	z.Add("www.shop.test. 300 IN A 192.0.2.200")
-	evil := l3.NewKey("shop.test.", 256, dns.ECDSAP256SHA256)
-	now := time.Now()
-	z.Servers[0].SetBehaviour(l3.Behaviour{Tamper: func(q dns.Question, m *dns.Msg, tcp bool) *dns.Msg {
-		if q.Qtype == dns.TypeDNSKEY {
-			var set []dns.RR
-			for _, rr := range m.Answer {
-				if rr.Header().Rrtype == dns.TypeDNSKEY {
-					set = append(set, rr)
-				}
-			}
-			set = append(set, evil.Key)
-			m.Answer = append(set, signSet(evil, "shop.test.", set, now.Add(-time.Hour), now.Add(time.Hour)))
-			return m
+	if len(os.Args) > 1 && os.Args[1] == "findpairs" {
+		findPairs()
+		for i := 0; i < 2; i++ {
+			k, _ := rsa.GenerateKey(rand.Reader, 1024)
+			fmt.Printf("%q,\n", base64.StdEncoding.EncodeToString(x509.MarshalPKCS1PrivateKey(k)))
 		}
-		if q.Qtype == dns.TypeA && q.Name == "www.shop.test." {
-			a, _ := dns.NewRR("www.shop.test. 300 IN A 6.6.6.6")
-			m.Answer = []dns.RR{a, signSet(evil, "shop.test.", []dns.RR{a}, now.Add(-time.Hour), now.Add(time.Hour))}
-		}
-		return m
-	}})
-	p := l3.NewPipe(w, l3.PipeOpts{DNSSEC: true})
-	defer p.Close()
-	for i := 0; i < 2; i++ {
-		t0 := time.Now()
-		r := p.Query("www.shop.test.", dns.TypeA, l3.Flags{DO: true})
-		if r == nil {
-			fmt.Println("no reply")
-			continue
-		}
-		fmt.Printf("rcode=%s ad=%v ans=%v (%dms)\n", dns.RcodeToString[r.Rcode], r.AuthenticatedData, r.Answer, time.Since(t0).Milliseconds())
 	}
 }
